@@ -51,6 +51,55 @@ def prefix_is_slice(p, a):
     return z3.PrefixOf(p, a) == z3.And(z3.Length(p) <= z3.Length(a), z3.Extract(a, 0, z3.Length(p)) == p)
 
 
+def split3(s, r):
+    """a sequence is what precedes position r, the element at r, and what follows"""
+    return z3.Implies(z3.And(r >= 0, r < z3.Length(s)),
+                      z3.And(s == z3.Concat(z3.Extract(s, 0, r), z3.Unit(s[r]), tail(s, r + 1)),
+                             z3.Length(z3.Extract(s, 0, r)) == r, z3.Length(tail(s, r + 1)) == z3.Length(s) - r - 1))
+
+
+def split2(s, r):
+    return z3.Implies(z3.And(r >= 0, r <= z3.Length(s)),
+                      z3.And(s == z3.Concat(z3.Extract(s, 0, r), tail(s, r)), z3.Length(z3.Extract(s, 0, r)) == r,
+                             z3.Length(tail(s, r)) == z3.Length(s) - r))
+
+
+def tail_tail(s, a, b):
+    return z3.Implies(z3.And(a >= 0, b >= 0, a + b <= z3.Length(s)), tail(tail(s, a), b) == tail(s, a + b))
+
+
+def prefix_concat(p, x, s):
+    """s starts with p ++ x  iff  s starts with p and the rest starts with x"""
+    return z3.PrefixOf(z3.Concat(p, x), s) == z3.And(z3.PrefixOf(p, s), z3.PrefixOf(x, tail(s, z3.Length(p))))
+
+
+def prefix_unit(c, s):
+    return z3.PrefixOf(z3.Unit(c), s) == z3.And(z3.Length(s) > 0, s[0] == c)
+
+
+def eq_concat(p, x, s):
+    return (s == z3.Concat(p, x)) == z3.And(z3.PrefixOf(p, s), tail(s, z3.Length(p)) == x)
+
+
+def slice_slice(s, m, r):
+    """a prefix of a prefix, and an element of a prefix"""
+    return z3.Implies(z3.And(r >= 0, r <= m, m <= z3.Length(s)),
+                      z3.And(z3.Extract(z3.Extract(s, 0, m), 0, r) == z3.Extract(s, 0, r),
+                             z3.Implies(r < m, z3.Extract(s, 0, m)[r] == s[r])))
+
+
+def prefix_nth(p, s, i):
+    return z3.Implies(z3.And(z3.PrefixOf(p, s), i >= 0, i < z3.Length(p)), p[i] == s[i])
+
+
+def code_slice_props(s, n):
+    """s[:n] as the interpreter builds it (clamped) is a prefix of s of length min(n, len s), for n >= 0"""
+    from pyvc import ops
+    from pyvc.sym import SSeq, mk_int
+    sl = ops.seq_slice(SSeq(s, "bytes", "int"), None, mk_int(n)).t
+    return z3.Implies(n >= 0, z3.And(z3.PrefixOf(sl, s), z3.Length(sl) == z3.If(n < z3.Length(s), n, z3.Length(s))))
+
+
 def code_slice_eq(p, a):
     """a[:len(p)] == p exactly as the interpreter builds it for the Python expression (with slice clamping)"""
     from pyvc import ops
@@ -66,6 +115,8 @@ ALL = {
     "prefix_cons": (prefix_cons, 2), "prefix_head_differs": (prefix_head_differs, 2), "prefix_strip": (prefix_strip, 3),
     "prefix_excl": (prefix_excl, 3), "prefix_trans": (prefix_trans, 3), "eq_cons": (eq_cons, 2), "eq_strip": (eq_strip, 3),
     "prefix_is_slice": (prefix_is_slice, 2), "prefix_is_code_slice": (prefix_is_code_slice, 2),
+    "split3": (split3, "si"), "split2": (split2, "si"), "tail_tail": (tail_tail, "sii"),
+    "slice_slice": (slice_slice, "sii"), "prefix_nth": (prefix_nth, "ssi"), "code_slice_props": (code_slice_props, "si"), "prefix_concat": (prefix_concat, 3), "prefix_unit": (prefix_unit, "is"), "eq_concat": (eq_concat, 3),
 }
 
 
@@ -97,12 +148,44 @@ def key_pair_facts(E, k, q, path=None):
             use(E, "prefix_is_code_slice", path, x)
 
 
+def split_point_facts(E, P, K, Q, r, Kp=None):
+    """instances that let the solver reason about three keys around a divergence index r of P and K"""
+    r = z3.simplify(r)
+    for s_ in (P, K, Q):
+        use(E, "split3", s_, r)
+        use(E, "split2", s_, r)
+        use(E, "tail_tail", s_, r, z3.IntVal(1))
+    pre_p, pre_k = z3.simplify(z3.Extract(P, 0, r)), z3.simplify(z3.Extract(K, 0, r))
+    tp, tk, tq = tail(P, r + 1), tail(K, r + 1), tail(Q, r + 1)
+    # P <= Q and K == Q through the split
+    for (X, pre, tx) in ((P, pre_p, tp), (K, pre_k, tk)):
+        use(E, "prefix_concat", pre, z3.Concat(z3.Unit(X[r]), tx), Q)
+        use(E, "prefix_concat", z3.Unit(X[r]), tx, tail(Q, r))
+        use(E, "prefix_unit", X[r], tail(Q, r))
+        use(E, "eq_concat", pre, z3.Concat(z3.Unit(X[r]), tx), Q)
+        use(E, "eq_concat", z3.Unit(X[r]), tx, tail(Q, r))
+        use(E, "prefix_is_code_slice", tx, tq)
+        use(E, "prefix_is_code_slice", pre, Q)
+        use(E, "prefix_is_code_slice", X, Q)
+    use(E, "tail_tail", Q, r + 1, z3.Length(tp))
+    use(E, "tail_tail", Q, r + 1, z3.Length(tk))
+    E.assume(mk_bool(z3.simplify(z3.Implies(z3.And(r >= 0, r < z3.Length(Q)), tail(Q, r)[0] == Q[r]))))
+    if Kp is not None:
+        use(E, "slice_slice", K, z3.Length(Kp), r)
+        use(E, "code_slice_props", K, z3.Length(P))
+        use(E, "prefix_nth", Kp, K, r)
+
+
 def register(reg):
     def mk(name):
         fn, n = ALL[name]
 
         def run(E):
-            cs = [z3.Const("%s!%d" % (name, i), SeqI) for i in range(n)]
+            if isinstance(n, str):
+                cs = [z3.Const("%s!%d" % (name, i), SeqI) if ch == "s" else z3.Int("%s!%d" % (name, i))
+                      for i, ch in enumerate(n)]
+            else:
+                cs = [z3.Const("%s!%d" % (name, i), SeqI) for i in range(n)]
             E.prove("seq/" + name, mk_bool(fn(*cs)), kind="lemma")
         return run
     for name in ALL:
